@@ -168,6 +168,7 @@ func checkC01(c *Ctx) {
 	noUnguardedAssert(c, "C01.3", readFrom, writeTo)
 	ruleHeaderRead(c, "", "C01.4")
 	runWriteToSim(c, "C01.5", "", "", "", "")
+	runWriteToSimRS(c, "C01.2")
 	ruleVLQ(c, "", "", "C01.6")
 	rulePlumbing(c, "C01.7")
 	c.Rule("C01.8", "reading back cannot panic: every potentially panicking construct reachable from ReadFrom (incl. the tempo post-processing that runs on every read) is discharged for unknown inputs (= C05.1)", 15)
